@@ -837,6 +837,8 @@ class JSONParser(Parser, LegacyItemAccess):
         # JSONParser used to raise an exception for valid "null" JSON string
         if self.data is None:
             raise SkipComponent("Empty input")
+        if not isinstance(self.data, (dict, list)):
+            raise ParseException("JSON didn't produce a dictionary or list.")
 
 
 class ScanMeta(type):
